@@ -895,9 +895,12 @@ func runC04(c *Ctx) {
 			continue
 		}
 		c.looked(name)
-		checkMapReduce(c, fn, name)
+		checkMapReduce(c, fn, name, "R7", false)
 	}
 	c.floor("R7", 30)
+
+	// ---------- R8 no client lock is leaked: a later call would hang ----------
+	checkLockBalance(c, "R8", func(fn *ssa.Function) bool { return !isServerSide(fn) && outermost(fn).Package() == p.Sftp }, 15)
 }
 
 // resultHasOnlyErr: the value is a `result` literal whose err field is set (and data is not).
@@ -935,8 +938,21 @@ func resultHasOnlyErr(v ssa.Value) bool {
 }
 
 // checkMapReduce enforces the channel protocol of one concurrent transfer function.
-func checkMapReduce(c *Ctx, fn *ssa.Function, name string) {
+func checkMapReduce(c *Ctx, fn *ssa.Function, name string, rule string, joinOnly bool) {
 	p := c.P
+	// joinOnly keeps the obligations that establish "every goroutine of the transfer has ended when the method returns"
+	chk := func(join bool, ok bool, key, pos, good, bad string) {
+		if joinOnly && !join {
+			return
+		}
+		c.check(ok, rule, key, pos, good, bad)
+	}
+	cbad := func(join bool, key, pos, why string) {
+		if joinOnly && !join {
+			return
+		}
+		c.bad(rule, key, pos, why)
+	}
 	pos := func(in ssa.Instruction) string { return p.Pos(in.Pos()) }
 	// the cancel channel: a chan struct{} made in fn
 	var cancelCell ssa.Value
@@ -956,7 +972,7 @@ func checkMapReduce(c *Ctx, fn *ssa.Function, name string) {
 		}
 	})
 	if cancelMake == nil {
-		c.bad("R7", name+" cancel channel", p.Pos(fn.Pos()), "no cancel channel: feeder and workers cannot be stopped")
+		cbad(false, name+" cancel channel", p.Pos(fn.Pos()), "no cancel channel: feeder and workers cannot be stopped")
 		return
 	}
 	isCancel := func(v ssa.Value) bool {
@@ -978,7 +994,7 @@ func checkMapReduce(c *Ctx, fn *ssa.Function, name string) {
 		early := loopEarlyExit(l)
 		cell := cellOf(ch)
 		key := name + " reducer loop"
-		c.check(!early, "R7", key, p.Pos(l.head.Instrs[0].Pos()), "the reducer drains its channel to the end", "the reducer can leave its range loop early: workers still sending errors block forever")
+		chk(true, !early, key, p.Pos(l.head.Instrs[0].Pos()), "the reducer drains its channel to the end", "the reducer can leave its range loop early: workers still sending errors block forever")
 		if !early {
 			if cell != nil {
 				drained[cell] = true
@@ -1000,7 +1016,7 @@ func checkMapReduce(c *Ctx, fn *ssa.Function, name string) {
 	if name == "(*File).WriteTo" {
 		wantG = 2 // no error channel, hence no closer goroutine
 	}
-	c.check(len(gors) >= wantG, "R7", name+" goroutines", p.Pos(fn.Pos()), fmt.Sprintf("%d goroutine literals (feeder, workers, closer)", len(gors)), "fewer goroutine literals than the feeder/worker/closer structure needs")
+	chk(true, len(gors) >= wantG, name+" goroutines", p.Pos(fn.Pos()), fmt.Sprintf("%d goroutine literals (feeder, workers, closer)", len(gors)), "fewer goroutine literals than the feeder/worker/closer structure needs")
 	closerSeen := false
 	for gi, g := range gors {
 		gname := fmt.Sprintf("%s goroutine #%d", name, gi+1)
@@ -1010,7 +1026,7 @@ func checkMapReduce(c *Ctx, fn *ssa.Function, name string) {
 			case *ssa.Send:
 				cell := cellOf(x.Chan)
 				ok := cell != nil && drained[cell]
-				c.check(ok, "R7", gname+" plain send", pos(in), "plain send goes to a channel the parent drains to the end", "an unconditional send on a channel nobody is guaranteed to drain: the goroutine can block forever after the transfer ended")
+				chk(false, ok, gname+" plain send", pos(in), "plain send goes to a channel the parent drains to the end", "an unconditional send on a channel nobody is guaranteed to drain: the goroutine can block forever after the transfer ended")
 			case *ssa.Select:
 				hasSend, hasCancel := false, false
 				for _, st := range x.States {
@@ -1022,21 +1038,21 @@ func checkMapReduce(c *Ctx, fn *ssa.Function, name string) {
 					}
 				}
 				if hasSend {
-					c.check(hasCancel && x.Blocking, "R7", gname+" select send", pos(in), "send is paired with a receive from cancel", "a select that sends has no cancel arm")
+					chk(false, hasCancel && x.Blocking, gname+" select send", pos(in), "send is paired with a receive from cancel", "a select that sends has no cancel arm")
 				}
 			}
 		})
 		// range loops in goroutines (workers): no early exit; deferred wg.Done
 		for _, l := range rangeChanLoops(g) {
 			early := loopEarlyExit(l)
-			c.check(!early, "R7", gname+" worker loop", p.Pos(l.head.Instrs[0].Pos()), "the worker consumes the work channel to the end", "a worker can leave its range loop (return/break): dispatched requests are never collected and the feeder blocks")
+			chk(true, !early, gname+" worker loop", p.Pos(l.head.Instrs[0].Pos()), "the worker consumes the work channel to the end", "a worker can leave its range loop (return/break): dispatched requests are never collected and the feeder blocks")
 			done := false
 			eachInstr(g, func(in ssa.Instruction) {
 				if d, ok := in.(*ssa.Defer); ok && isWGCall(&d.Call, "Done") {
 					done = true
 				}
 			})
-			c.check(done, "R7", gname+" worker Done", p.Pos(g.Pos()), "deferred wg.Done", "a worker does not signal the wait group on exit")
+			chk(true, done, gname+" worker Done", p.Pos(g.Pos()), "deferred wg.Done", "a worker does not signal the wait group on exit")
 		}
 		// feeder: defers close of its work channel
 		sendsWork := false
@@ -1061,7 +1077,7 @@ func checkMapReduce(c *Ctx, fn *ssa.Function, name string) {
 					}
 				}
 			})
-			c.check(closes, "R7", gname+" feeder closes the work channel", p.Pos(g.Pos()), "defer close(workCh) at the top", "the feeder does not close the work channel on every exit: workers never finish and wg.Wait blocks")
+			chk(true, closes, gname+" feeder closes the work channel", p.Pos(g.Pos()), "defer close(workCh) at the top", "the feeder does not close the work channel on every exit: workers never finish and wg.Wait blocks")
 		}
 		// closer goroutine: wg.Wait(); close(errCh)
 		var w, cl ssa.Instruction
@@ -1081,12 +1097,12 @@ func checkMapReduce(c *Ctx, fn *ssa.Function, name string) {
 		})
 		if w != nil && cl != nil {
 			closerSeen = true
-			c.check(dominates(w, cl), "R7", gname+" closer order", pos(cl), "the error channel is closed after all workers ended", "the error channel is closed before the workers ended: a late error panics on a closed channel")
+			chk(true, dominates(w, cl), gname+" closer order", pos(cl), "the error channel is closed after all workers ended", "the error channel is closed before the workers ended: a late error panics on a closed channel")
 		}
 	}
 	// WriteTo has no error channel; the others need the closer
 	if name != "(*File).WriteTo" {
-		c.check(closerSeen, "R7", name+" closer goroutine", p.Pos(fn.Pos()), "wg.Wait(); close(errCh)", "no goroutine closes the error channel after the workers ended: the reducer never terminates")
+		chk(true, closerSeen, name+" closer goroutine", p.Pos(fn.Pos()), "wg.Wait(); close(errCh)", "no goroutine closes the error channel after the workers ended: the reducer never terminates")
 	}
 	// cancel closed at most once: every close(cancel) is either deferred once, or in the default arm of a select on cancel
 	var closes []ssa.Instruction
@@ -1097,7 +1113,7 @@ func checkMapReduce(c *Ctx, fn *ssa.Function, name string) {
 		}
 	})
 	if len(closes) == 0 {
-		c.bad("R7", name+" cancel closed", p.Pos(fn.Pos()), "cancel is never closed: the feeder keeps dispatching after an error")
+		cbad(false, name+" cancel closed", p.Pos(fn.Pos()), "cancel is never closed: the feeder keeps dispatching after an error")
 	}
 	for _, cl := range closes {
 		f := cl.Parent()
@@ -1129,7 +1145,7 @@ func checkMapReduce(c *Ctx, fn *ssa.Function, name string) {
 				guarded = true
 			}
 		}
-		c.check(guarded && len(closes) == 1, "R7", name+" cancel closed at most once", pos(cl), "close(cancel) guarded by the select-default idiom or deferred once", "cancel can be closed twice (panic) or without the guard")
+		chk(false, guarded && len(closes) == 1, name+" cancel closed at most once", pos(cl), "close(cancel) guarded by the select-default idiom or deferred once", "cancel can be closed twice (panic) or without the guard")
 	}
 	// the parent waits for the workers before returning: WriteTo defers wg.Wait; others drain errCh closed after wg.Wait
 	if name == "(*File).WriteTo" {
@@ -1146,7 +1162,7 @@ func checkMapReduce(c *Ctx, fn *ssa.Function, name string) {
 				})
 			}
 		})
-		c.check(okw, "R7", name+" waits for its goroutines", p.Pos(fn.Pos()), "deferred close(cancel); wg.Wait()", "WriteTo can return while its goroutines still run")
+		chk(true, okw, name+" waits for its goroutines", p.Pos(fn.Pos()), "deferred close(cancel); wg.Wait()", "WriteTo can return while its goroutines still run")
 	}
 }
 
